@@ -1,4 +1,5 @@
 import SakuraVerif.Driver.SmfOps
+import SakuraVerif.Driver.DumpOps
 open Sakura Sakura.Wire Sakura.Driver
 
 def handle (line : String) : String :=
@@ -9,6 +10,7 @@ def handle (line : String) : String :=
   | ["spec.c01", bin, n, tb] => "ok " ++ specC01 (unhex bin) (parseNat n) (parseNat tb)
   | ["spec.c02", bin, pf, tracks] => "ok " ++ specC02 (unhex bin) (parseInt pf) (parseTracks tracks)
   | ["playfrom", p, evs] => "ok ev=" ++ showEvents (playFrom (parseInt p) (parseEvents evs))
+  | ["spec.c20", bin, text] => "ok " ++ specC20 (unhex bin) (String.ofList ((utf8Decode (unhex text)).map Char.ofNat))
   | _ => "bad-op"
 
 partial def loop (h : IO.FS.Stream) (out : IO.FS.Stream) : IO Unit := do
